@@ -31,7 +31,7 @@ ASSUMPTIONS = [
     'numbers are binary fractions (exact in SQLite REAL); array/object values are JSON-native',
 ]
 BUDGET = {'quick': dict(examples=640, shards=8, seconds=75),
-          'thorough': dict(examples=10000, shards=16, seconds=1200)}
+          'thorough': dict(examples=30000, shards=16, seconds=1200)}
 
 K1 = ['a', 'b', 'a b', 'é']
 K2 = [0, 1, 2]
